@@ -310,6 +310,48 @@ def run_case(inp):
             V("no-mutation", "an operation modified its input table: " + out[:200])
         if "bin-membership" in out:
             V("cut-bins", "cutby group contains a value outside its (gt, le] interval")
+    elif kind == "alias":
+        # objects related by copy / derivation / append share no state: an in-place append on one of them
+        # leaves the others intact (their three containers stay parallel)
+        x1, x2 = make_table(range(100, 103)), make_table(range(200, 202))
+
+        def snap(o):
+            return (show(o), len(o.pos), int(np.asarray(o.quaternion()).reshape(-1, 4).shape[0]), len(o.features))
+
+        def intact(o, before, what):
+            try:
+                now = snap(o)
+                o.filter(pl.col("tag") >= 0)
+            except Exception as e:  # noqa: BLE001
+                V("no-mutation", f"{what}: {type(e).__name__}: {str(e)[:80]}")
+                return
+            if now != before or not (now[1] == now[2] == now[3]):
+                V("no-mutation", f"{what}: {before[0][:60]} (rows {before[1:]}) became {now[0][:60]} (rows {now[1:]})")
+        try:
+            acc = Molecules.empty()
+            a, b = make_table(range(n)), make_table(range(50, 50 + max(1, n // 2)))
+            sa, sb = snap(a), snap(b)
+            acc.append(a)
+            acc.append(b)
+            acc.append(x1)
+            intact(a, sa, "operand of append onto an empty table, after further appends")
+            intact(b, sb, "second operand of append, after a further append")
+            for label, derive in (("copy()", lambda q: q.copy()), ("subset(slice(None))", lambda q: q.subset(slice(None))),
+                                  ("head(n)", lambda q: q.head(max(n, 1))), ("filter(all)", lambda q: q.filter(pl.col("tag") >= 0)),
+                                  ("with_features", lambda q: q.with_features((pl.col("tag") * 1).alias("tag2")).drop_features("tag2")),
+                                  ("concat_with(feature-less)", lambda q: q.concat_with(Molecules(np.zeros((0, 3)))) if n else q.copy())):
+                src = make_table(range(n))
+                der = derive(src)
+                s_src, s_der = snap(src), snap(der)
+                der.append(make_table(range(100, 103)))
+                intact(src, s_src, f"source after in-place append on its {label}")
+                src2 = make_table(range(n))
+                der2 = derive(src2)
+                s_der2 = snap(der2)
+                src2.append(make_table(range(200, 202)))
+                intact(der2, s_der2, f"{label} after in-place append on its source")
+        except Exception as e:  # noqa: BLE001
+            V("no-error", f"aliasing scenario raised {type(e).__name__}: {str(e)[:100]}")
     elif kind == "partition":
         g = inp["g"]
         mm = m.with_features((pl.col("tag") % g).alias("k"))
@@ -370,6 +412,8 @@ def oracle(rng, thorough, deep=False, hints=None):
         cases.append(dict(kind="partition", n=int(rng.integers(1, 13)), g=int(rng.integers(1, 5)),
                           edges=sorted({float(x) for x in rng.integers(-1, 12, size=3)})))
     cases.append(dict(kind="reject", n=3))
+    for n in ((0, 1, 3, 6) if big else (3, 0)):
+        cases.append(dict(kind="alias", n=n))
     for b in (hints or {}).get("k2", []):      # histories on which model and implementation disagreed
         if isinstance(b.get("op"), str) and b["op"].startswith("m:table "):
             n_, ops_ = parse_history(b["op"])
